@@ -74,6 +74,9 @@ def _base(w):
 def gen_port(w, cfg, platform):
     """-> None | (op, (operands...))."""
     r = w.random()
+    if platform == "ios" and cfg.get("p_multi_neq") and w.random() < 0.12:
+        a = w.choice(COMMON_PORTS)
+        return ("neq", tuple(sorted({a, a + 1, w.choice(COMMON_PORTS)}))[:3])
     if r < 0.35:
         return None
 
@@ -157,6 +160,9 @@ def _narrow_addr(w, addr):
         base, mask = addr[1], addr[2]
         if mask == 0:
             return addr
+        if w.random() < 0.3:
+            # one host inside (for a non-contiguous wildcard: inside one of its networks)
+            return ("host", base | (w.getrandbits(32) & mask))
         # clear one wildcard bit, pick a value for it
         bits = [b for b in range(32) if (mask >> b) & 1]
         b = w.choice(bits)
@@ -175,6 +181,10 @@ def _widen_addr(w, addr):
         return ("wild", addr[1] & ~m & ALL32, m)
     if addr[0] == "wild":
         base, mask = addr[1], addr[2]
+        if w.random() < 0.2 and ncw_bits(mask) < 4:
+            # wildcard one high bit more: twice the addresses, non-contiguous
+            nm = mask | (1 << w.choice([31, 31, 30, 24]))
+            return ("wild", base & ~nm & ALL32, nm)
         zero = [b for b in range(24) if not (mask >> b) & 1]
         if not zero:
             return ("any",)
@@ -202,6 +212,8 @@ def _narrow_port(w, port, platform):
         return w.choice([("lt", (ops[0] - 1,)), ("eq", (ops[0] - 1,))])
     if op == "neq":
         other = ops[0] + 1 if ops[0] < MAXP else ops[0] - 1
+        if w.random() < 0.5:
+            return ("eq", (ops[-1],))  # near miss: an excluded port, NOT inside the neq set
         return ("eq", (other,))
     return port
 
